@@ -824,6 +824,10 @@ def run_score(case):
                     continue
                 aoef(kind, site, uuid, lambda o, g=g, kind=kind: g(loaded_cp(kind, o)),
                      "aoef:%s/%s.tags" % (kind, site), tags=[[tags[0][0], v]] + [list(t) for t in tags[1:]])
+                # the same tag listed twice, the probed probability on the earlier entry (a later entry must not shadow it)
+                aoef(kind, site, uuid, lambda o, g=g, kind=kind: g(loaded_cp(kind, o)),
+                     "aoef:%s/%s.tags+repeat" % (kind, site),
+                     tags=[[tags[0][0], v], [tags[0][0], 0.625]] + [list(t) for t in tags[1:]])
     elif cname == "SoundEventPrediction":
         direct(data.SoundEventPrediction, w.spred,
                lambda: data.SoundEventPrediction(uuid=U("sp"), sound_event=w.spred.sound_event, score=v))
@@ -980,6 +984,8 @@ def run_shared_uuid(case):
         "only_target": ([data.Match(uuid=_U("su:m0"), target=a, affinity=0.0)], ["missing"]),
         "only_source": ([data.Match(uuid=_U("su:m0"), source=p, affinity=0.0)], ["missing"]),
         "foreign_pair": ([data.Match(uuid=_U("su:m0"), target=a2, affinity=0.0), data.Match(uuid=_U("su:m1"), source=p2, affinity=0.0)], ["foreign"]),
+        # the match holds an earlier snapshot of the annotation (same uuid, other tags): still that annotated sound event
+        "paired_snapshot": ([data.Match(uuid=_U("su:m0"), source=p, target=a.model_copy(update={"tags": [data.Tag(term=term("snap"), value="v")]}), affinity=0.5)], []),
         "target_twice": ([data.Match(uuid=_U("su:m0"), source=p, target=a, affinity=0.5), data.Match(uuid=_U("su:m1"), target=a, affinity=0.0)], ["duplicate"]),
     }
     matches, reasons = variants[case["variant"]]
@@ -998,7 +1004,7 @@ def run_shared_uuid(case):
     return out
 
 
-SHARED_UUID_VARIANTS = ["paired", "both_unmatched", "only_target", "only_source", "foreign_pair", "target_twice"]
+SHARED_UUID_VARIANTS = ["paired", "paired_snapshot", "both_unmatched", "only_target", "only_source", "foreign_pair", "target_twice"]
 
 
 def default_sites():
